@@ -528,7 +528,7 @@ def print_nodes(nodes, depth, out):
                 out.append(ind + "\t- default:")
                 print_nodes(default, depth + 2, out)
         elif k == "render":
-            out.append(ind + "= @render %s(E)" % n[1])
+            out.append(ind + "= @render %s(%s)" % (n[1], "dec(E)" if len(n) > 3 and n[3] == "dec" else "E"))
             if n[2]:
                 print_nodes(n[2], depth + 1, out)
         elif k == "children":
@@ -754,13 +754,17 @@ class Denote:
             t = self.templates[n[1]]
             blk = None
             if n[2]:
-                blk = (n[2], loc, children)   # the block, the caller's scope and the caller's own children
-            return self.nodes(t["body"], env, {}, blk)
+                # the block, evaluated later in the caller's scope: its environment, variables and own children
+                blk = (n[2], env, loc, children)
+            env2 = env
+            if len(n) > 3 and n[3] == "dec":
+                env2 = dict(env, N=[env["N"][0] - 1] + list(env["N"][1:]))
+            return self.nodes(t["body"], env2, {}, blk)
         if k == "children":
             if children is None:
                 return ""
-            body, cloc, cchildren = children
-            return self.nodes(body, env, cloc, cchildren)
+            body, cenv, cloc, cchildren = children
+            return self.nodes(body, cenv, cloc, cchildren)
         raise ValueError(k)
 
     def raw(self, name, env):
